@@ -6,6 +6,7 @@ arithmetic, transcribed below as python expression strings, in normal form.
 """
 
 import ast
+from fractions import Fraction
 from math import comb
 
 from .. import astq
@@ -399,8 +400,36 @@ def commands(ctx, f):
     ctx.check(okr, R, f, rej[0] if rej else MISSING(f.node), "a sample type at or beyond TYPE_EOF is rejected", "ftype >= TYPE_EOF is not rejected")
     # versions
     ev = SymEval(prog, f, rename={}).run()
-    vr = [g for g, r in ev.raises if "MAX_SUPPORTED_VERSION" in S.show(g) or "MIN_SUPPORTED_VERSION" in S.show(g)]
-    ctx.check(bool(vr), R, f, f.node, "a version outside [MIN, MAX]_SUPPORTED_VERSION raises", "no raise is conditioned on the supported version range")
+    # raises decided by the version byte alone, evaluated for every value class of the signed byte
+    vr = []
+    vname = ast.parse("version", mode="eval").body
+    for g, r in ev.raises:
+        try:
+            ve = ev.eval_at(r, vname)
+        except Exception:
+            ve = None
+        if ve is not None and ve.op != "sym":
+            g = S.subst(g, {ve: S.sym("version")})
+        syms = set(S.symbols(g))
+        opaque = any(x.op == "call" and not (isinstance(x.args[0], str) and x.args[0] in ("set", "tuple", "list")) for x in S.walk(g))
+        if "version" in syms and not opaque and all(x == "version" or x.split(".")[-1] in consts for x in syms):
+            vr.append((g, r))
+    ctx.check(bool(vr), R, f, f.node, "a version outside [MIN, MAX]_SUPPORTED_VERSION raises", "no raise is conditioned on the version byte")
+    if vr:
+        for v in (-128, -1, 0, 1, 2, 3, 127):
+            env = {"version": Fraction(v)}
+            for g, r in vr:
+                for x in S.symbols(g):
+                    if x != "version":
+                        env[x] = Fraction(consts[x.split(".")[-1]])
+            try:
+                rejected = any(S.truthy(S.lift(S.evaluate(g, env))) if not isinstance(S.evaluate(g, env), bool) else S.evaluate(g, env) for g, r in vr)
+            except S.Inconclusive as e:
+                raise AnalysisError("%s: cannot evaluate the version guard at version=%d: %s" % (R, v, e))
+            want = v not in (1, 2)
+            ctx.check(rejected == want, R, f, vr[0][1], "a stream with version byte %d is %s" % (v, "rejected" if want else "decoded"),
+                      "a stream whose version byte is %d is %s (the byte is read as signed, so 0 and 0x80..0xff are versions the decoder does not know); "
+                      "only versions 1 and 2 may be decoded, anything else must raise" % (v, "rejected" if rejected else "decoded as if it were version 1"))
     ctx.check(consts.get("MIN_SUPPORTED_VERSION") == 1 and consts.get("MAX_SUPPORTED_VERSION") == 2, R, f, f.node,
               "supported shorten versions are 1..2", "supported version range is %s..%s" % (consts.get("MIN_SUPPORTED_VERSION"), consts.get("MAX_SUPPORTED_VERSION")))
 
